@@ -104,11 +104,27 @@ type arithGen struct {
 	maxDepth   int
 	zeroBias   int // percent of literals that are 0 (division by zero cases)
 	longChains bool
+	overflow   bool // also emit literals outside int64 (the expression is then ill-formed: mutated family only)
 	ws         []string
 }
 
+var arithBoundary = []string{"9223372036854775807", "-9223372036854775808", "999999999999999999", "1000000000000000000", "4611686018427387904", "-9223372036854775807", "0x7fffffffffffffff", "0777777777777777777777"}
+var arithOverflow = []string{"9223372036854775808", "9999999999999999999", "-9223372036854775809", "18446744073709551616", "99999999999999999999", "0x8000000000000000", "01777777777777777777777"}
+
 func (g *arithGen) literal() *arithNode {
 	r := g.r
+	if r.Intn(15) == 0 {
+		// literals at the edges of int64: the last ones a conversion accepts
+		lit := arithBoundary[r.Intn(len(arithBoundary))]
+		v, err := strconv.ParseInt(lit, 0, 64)
+		if err != nil {
+			panic("arith boundary literal: " + err.Error())
+		}
+		return &arithNode{lit: lit, val: v}
+	}
+	if g.overflow && r.Intn(15) == 0 {
+		return &arithNode{lit: arithOverflow[r.Intn(len(arithOverflow))]}
+	}
 	var v int64
 	switch {
 	case r.Intn(100) < g.zeroBias:
